@@ -26,6 +26,11 @@ Numbers are exact rationals, `<vals>` a vector, `<table>` a matrix with one row 
   `Acq.empAddSample` (`n` designs; missing trailing sample lists are empty)
 * `step <inputDim> <designs> <vals> <q> <obs (row i = observation of design row i)> <dataX> <dataY>`
   → `<candidates> <dataX'> <dataY'>` — `Acq.evaluatingStep`
+* `decstep <inputDim> <m> <designs> <table> <q> <obs (row j = per design row the value observed for
+  objective j; unused entries arbitrary)> <storesX (mats)> <storesY>`
+  → `err` | `<candidate rows> <objectives> <storesX'> <storesY'>` — `Acq.evaluatingStepDecoupled`
+* `evalallstep <n> <S> <U> <obs (row i = observation of design i, `_` if none)> <samples (mats)>`
+  → `err` | `<samples'>` — `Acq.evaluateAllStep`
 -/
 namespace VOPy.Drv.C07
 open VOPy VOPy.Proto VOPy.Acq
@@ -142,6 +147,29 @@ def handle (args : List String) : String :=
           let (cand, data') := evaluatingStep d designs vals q observe data
           fmtMat cand ++ " " ++ fmtObs data'
     | _, _, _, _, _, _, _ => bad
+  | ["decstep", d, m, ds, t, q, ob, sx, sy] =>
+    match d.toNat?, m.toNat?, parseMat ds, parseMat t, q.toNat?, parseMat ob, parseMats sx, parseMat sy with
+    | some d, some m, some designs, some table, some q, some obs, some SX, some SY =>
+      let SX := SX ++ List.replicate (m - SX.length) []
+      let SY := SY ++ List.replicate (m - SY.length) []
+      if SX.length ≠ SY.length ∨ (List.zipWith (fun a b => a.length != b.length) SX SY).any id
+          ∨ table.isEmpty ∨ table.any (·.isEmpty) then bad
+      else
+        let observe := fun (x : Vec) (j : Nat) =>
+          (((designs.zip (obs.getD j [])).lookup x)).getD 0
+        match evaluatingStepDecoupled d designs table q observe (List.zipWith List.zip SX SY) with
+        | (_, none) => "err"
+        | (cand, some st) =>
+          fmtMat (cand.map (·.1)) ++ " " ++ fmtNats (cand.map (·.2)) ++ " " ++
+            fmtMats (st.map (·.map (·.1))) ++ " " ++ fmtMat (st.map (·.map (·.2)))
+    | _, _, _, _, _, _, _, _ => bad
+  | ["evalallstep", n, s, u, ob, sm] =>
+    match n.toNat?, parseNats s, parseNats u, parseMat ob, parseMats sm with
+    | some n, some S, some U, some obs, some samples =>
+      match evaluateAllStep S U (fun i => obs.getD i []) (samples ++ List.replicate (n - samples.length) []) with
+      | none => "err"
+      | some st => fmtMats st
+    | _, _, _, _, _ => bad
   | _ => bad
 
 end VOPy.Drv.C07
